@@ -374,6 +374,8 @@ type profCase struct {
 	Units [][]int     // per profile, per sample type: index into the time family (ns,us,ms,s)
 	Vals  [][][]int64 // per profile, per sample, per type
 	Spell []int
+	// Cross: when non-empty, type 0 of the LAST profile is recorded in this unit of another family
+	Cross string
 }
 
 var timeSpell = [][]string{{"nanoseconds", "ns", "nanosecond"}, {"microseconds", "us", "μs"}, {"milliseconds", "ms", "MILLISECONDS"}, {"seconds", "s", "sec"}}
@@ -399,6 +401,9 @@ func genProf(t *rapid.T) *profCase {
 			ss = append(ss, vs)
 		}
 		c.Vals = append(c.Vals, ss)
+	}
+	if np > 1 && rapid.IntRange(0, 5).Draw(t, "cross") == 0 {
+		c.Cross = rapid.SampledFrom([]string{"bytes", "kb", "MB", "gcu", "milligcu", "kilobytes"}).Draw(t, "crossunit")
 	}
 	return c
 }
@@ -448,6 +453,19 @@ func checkProf(c *profCase, o *vk.Obs) []string {
 	}
 	o.LabelIf(mixed, "mixed-units")
 	o.NonTrivial = mixed && len(ps) > 1
+	if c.Cross != "" {
+		// a time type against a memory or GCU type of the same name: no conversion exists, the profiles must
+		// be refused rather than relabelled
+		o.Label("cross-family")
+		o.NonTrivial = true
+		ps[len(ps)-1].SampleType[0].Unit = c.Cross
+		before := fmt.Sprint(ps[len(ps)-1].Sample[:min(1, len(ps[len(ps)-1].Sample))])
+		if err := measurement.ScaleProfiles(ps); err == nil {
+			e.Addf("ScaleProfiles accepted type t0 in %q next to the same type in %q: units of different families were harmonised (now %q and %q, first sample %s -> %s)",
+				timeSpell[c.Units[0][0]][c.Spell[0]], c.Cross, ps[0].SampleType[0].Unit, ps[len(ps)-1].SampleType[0].Unit, before, fmt.Sprint(ps[len(ps)-1].Sample[:min(1, len(ps[len(ps)-1].Sample))]))
+		}
+		return e
+	}
 	if err := measurement.ScaleProfiles(ps); err != nil {
 		e.Addf("ScaleProfiles failed on convertible units: %v", err)
 		return e
